@@ -39,16 +39,16 @@ class _BaseAttribute(ABC):
         bool, np.bool_,
         int, np.uint8, np.int32, np.int64, 
         float, np.float32, np.float64, 
-        complex, 
-        str
+        complex, np.complex64, np.complex128,
+        str, np.str_
     }
 
     class Type(MultiValueEnum):
         Bool = bool, np.bool_
         Int = int, np.int32, np.uint8, np.int64
         Float = float, np.float32, np.float64
-        Complex = complex
-        String = str
+        Complex = complex, np.complex64, np.complex128
+        String = str, np.str_
 
         @classmethod
         def from_string(cls, txt : str):
